@@ -183,8 +183,14 @@ pub fn run(thorough: bool) {
     let mut scs = vec![];
     let mut outcomes = std::collections::BTreeSet::new();
     let mut probe_ops = 0;
-    for pool in if thorough { vec![1usize, 2, 16] } else { vec![1usize, 4] } {
+    'outer: for pool in if thorough { vec![1usize, 2, 16] } else { vec![1usize, 4] } {
         for sc in scenarios(thorough) {
+            // a call that did not return was found: the verdict is known, the remaining scenarios would
+            // only pay one watchdog period per further hang
+            if rep.violations.iter().any(|v| v.signature.contains("did-not-return") || v.signature.contains("hang")) {
+                rep.set("stopped_after_a_call_did_not_return", json!(true));
+                break 'outer;
+            }
             // quick tier: the larger pool is exercised on the conflict-heavy scenarios only
             if pool != 1 && sc.name.starts_with("x-") {
                 continue;
